@@ -49,11 +49,21 @@ type vpC22Codec struct {
 	levelRange [2]int
 }
 
+var vpC22GzipPool, vpC22ZlibPool, vpC22BrotliPool sync.Pool // decoder objects are reused (Reset) to keep the bursts cheap
+
 func vpC22StdGunzip(src []byte) ([]byte, error) {
-	zr, err := stdgzip.NewReader(bytes.NewReader(src))
+	var zr *stdgzip.Reader
+	var err error
+	if v := vpC22GzipPool.Get(); v != nil {
+		zr = v.(*stdgzip.Reader)
+		err = zr.Reset(bytes.NewReader(src))
+	} else {
+		zr, err = stdgzip.NewReader(bytes.NewReader(src))
+	}
 	if err != nil {
 		return nil, err
 	}
+	defer vpC22GzipPool.Put(zr)
 	zr.Multistream(false)
 	out, err := io.ReadAll(zr)
 	if err != nil {
@@ -64,10 +74,18 @@ func vpC22StdGunzip(src []byte) ([]byte, error) {
 
 func vpC22StdInflate(src []byte) ([]byte, error) {
 	r := bytes.NewReader(src)
-	zr, err := stdzlib.NewReader(r)
+	var zr io.ReadCloser
+	var err error
+	if v := vpC22ZlibPool.Get(); v != nil {
+		zr = v.(io.ReadCloser)
+		err = zr.(stdzlib.Resetter).Reset(r, nil)
+	} else {
+		zr, err = stdzlib.NewReader(r)
+	}
 	if err != nil {
 		return nil, err
 	}
+	defer vpC22ZlibPool.Put(zr)
 	out, err := io.ReadAll(zr)
 	if err != nil {
 		return out, err
@@ -82,7 +100,17 @@ func vpC22StdInflate(src []byte) ([]byte, error) {
 }
 
 func vpC22StdUnbrotli(src []byte) ([]byte, error) {
-	return io.ReadAll(brotli.NewReader(bytes.NewReader(src)))
+	var zr *brotli.Reader
+	if v := vpC22BrotliPool.Get(); v != nil {
+		zr = v.(*brotli.Reader)
+		if err := zr.Reset(bytes.NewReader(src)); err != nil {
+			return nil, err
+		}
+	} else {
+		zr = brotli.NewReader(bytes.NewReader(src))
+	}
+	defer vpC22BrotliPool.Put(zr)
+	return io.ReadAll(zr)
 }
 
 var vpC22ZstdDec struct {
